@@ -145,7 +145,7 @@ def corpus():
 
 def run(ctx):
     rng, tier = ctx["rng"], ctx["tier"]
-    n = 100 if tier == "quick" else 2000
+    n = int((100 if tier == "quick" else 2000) * ctx.get("mult", 1))
     hashseeds = [0, 1] if tier == "quick" else [0, 1, 2, 3]
     if ctx.get("replay"):
         cases = [f["case"] for f in ctx["replay"]["failing"] if "case" in f]
